@@ -109,6 +109,17 @@ Print Assumptions places_complete.
 Print Assumptions indices_in_range.
 Print Assumptions display_nonempty.
 
+(* equal-named functions in different files are different sources even when path trimming (trim_path,
+   the built-in /proc/self/cwd/ prefixes) makes their displayed file names coincide: interning is by
+   the function's own file name *)
+Theorem trimmed_files_kept_apart : forall shorten clean o p i i' src src' k k',
+  nth_error (ss_sources (stacks_of shorten clean o p)) i = Some src ->
+  nth_error (ss_sources (stacks_of shorten clean o p)) i' = Some src' ->
+  so_key src = Some k -> so_key src' = Some k' -> k_file k <> k_file k' ->
+  trim_path (o_trim o) (k_file k) = trim_path (o_trim o) (k_file k') -> i <> i'.
+Proof. exact files_apart_lemma. Qed.
+Print Assumptions trimmed_files_kept_apart.
+
 (* Total of the stack set = the sum of the magnitudes of the selected value over ALL samples -- a
    sample with an empty stack included -- (over the difference-base samples when they carry weight;
    divided by the summed mean divisor when one is selected), wherever int64 cannot overflow *)
